@@ -73,11 +73,23 @@
 use std::collections::HashMap;
 use std::collections::HashSet;
 use std::sync::Arc;
+#[cfg(not(feature = "verif_hooks"))]
 use std::sync::Mutex;
+#[cfg(feature = "verif_hooks")]
+use crate::verif::sync::Mutex;
+#[cfg(not(feature = "verif_hooks"))]
 use std::sync::MutexGuard;
+#[cfg(feature = "verif_hooks")]
+use crate::verif::sync::MutexGuard;
 
+#[cfg(not(feature = "verif_hooks"))]
 use dashmap::mapref::entry::Entry::Occupied;
+#[cfg(feature = "verif_hooks")]
+use crate::verif::dashmap::Entry::Occupied;
+#[cfg(not(feature = "verif_hooks"))]
 use dashmap::DashMap;
+#[cfg(feature = "verif_hooks")]
+use crate::verif::dashmap::DashMap;
 use once_cell::sync::OnceCell;
 
 use crate::ActorCell;
@@ -782,4 +794,106 @@ pub(crate) fn demonitor_all(actor: ActorId) {
             }
         }
     }
+}
+
+/// verif: plain-data view of every index kept by this module
+#[cfg(feature = "verif_hooks")]
+#[derive(Debug, Clone, Default, PartialEq, Eq)]
+pub struct VerifSnapshot {
+    /// forward map: (scope, group) -> (members, per-group listeners)
+    pub groups: Vec<(ScopeName, GroupName, Vec<ActorId>, Vec<ActorId>)>,
+    /// scope index: scope -> groups
+    pub index: Vec<(ScopeName, Vec<GroupName>)>,
+    /// scope / world listeners
+    pub world_listeners: Vec<(ScopeName, GroupName, Vec<ActorId>)>,
+    /// reverse index: actor -> (memberships, group monitors, world monitors)
+    #[allow(clippy::type_complexity)]
+    pub relations: Vec<(
+        ActorId,
+        Vec<(ScopeName, GroupName)>,
+        Vec<(ScopeName, GroupName)>,
+        Vec<(ScopeName, GroupName)>,
+    )>,
+}
+
+/// verif: sorted snapshot, taken without scheduling points (call at quiescent points only)
+#[cfg(feature = "verif_hooks")]
+pub fn verif_snapshot() -> VerifSnapshot {
+    fn ids<'a>(it: impl Iterator<Item = &'a ActorCell>) -> Vec<ActorId> {
+        let mut v = it.map(|c| c.get_id()).collect::<Vec<_>>();
+        v.sort();
+        v
+    }
+    fn keys(set: &HashSet<ScopeGroupKey>) -> Vec<(ScopeName, GroupName)> {
+        let mut v = set
+            .iter()
+            .map(|k| (k.scope.clone(), k.group.clone()))
+            .collect::<Vec<_>>();
+        v.sort();
+        v
+    }
+    let monitor = get_monitor();
+    let mut snap = VerifSnapshot::default();
+    for kv in monitor.map.raw().iter() {
+        snap.groups.push((
+            kv.key().scope.clone(),
+            kv.key().group.clone(),
+            ids(kv.value().members.values()),
+            ids(kv.value().listeners.iter()),
+        ));
+    }
+    snap.groups.sort();
+    for kv in monitor.index.raw().iter() {
+        let mut g = kv.value().iter().cloned().collect::<Vec<_>>();
+        g.sort();
+        snap.index.push((kv.key().clone(), g));
+    }
+    snap.index.sort();
+    for kv in monitor.world_listeners.raw().iter() {
+        snap.world_listeners.push((
+            kv.key().scope.clone(),
+            kv.key().group.clone(),
+            ids(kv.value().iter()),
+        ));
+    }
+    snap.world_listeners.sort();
+    for kv in monitor.actor_relations.raw().iter() {
+        let r = match kv.value().raw().try_lock() {
+            Ok(r) => r,
+            Err(_) => continue,
+        };
+        snap.relations.push((
+            *kv.key(),
+            keys(&r.memberships),
+            keys(&r.group_monitors),
+            keys(&r.world_monitors),
+        ));
+    }
+    snap.relations.sort();
+    snap
+}
+
+/// verif: clear every index, reporting what was still in them
+#[cfg(feature = "verif_hooks")]
+pub(crate) fn verif_reset() -> Vec<String> {
+    let snap = verif_snapshot();
+    let mut residue = Vec::new();
+    for (s, g, m, l) in &snap.groups {
+        residue.push(format!("pg group {s}/{g} members={m:?} listeners={l:?}"));
+    }
+    for (s, g) in &snap.index {
+        residue.push(format!("pg index {s} -> {g:?}"));
+    }
+    for (s, g, l) in &snap.world_listeners {
+        residue.push(format!("pg world listeners {s}/{g} {l:?}"));
+    }
+    for (a, m, gm, wm) in &snap.relations {
+        residue.push(format!("pg relations {a} {m:?} {gm:?} {wm:?}"));
+    }
+    let monitor = get_monitor();
+    monitor.map.raw().clear();
+    monitor.index.raw().clear();
+    monitor.world_listeners.raw().clear();
+    monitor.actor_relations.raw().clear();
+    residue
 }
